@@ -667,6 +667,23 @@ namespace
                       if (!eqv) { same = false; where = i; }
                     }
                   stats.values += static_cast<long>(out.size());
+                  // "jitter": a disagreement is only reported if the first world's own answer is stable in a small star around the
+                  // point (the statement's "up to rounding": next to a boundary or a medial axis a rounding-size move legitimately
+                  // changes the answer); dropped points are counted
+                  if (!same && s.HasMember("jitter") && dim == 3 && !sph_rows)
+                    {
+                      const double jr = eval(s["jitter"]);
+                      const double scale = std::max(1., std::max(std::fabs(c[0]), std::fabs(c[1])));
+                      bool stable = true;
+                      for (int k = 0; k < 4 && stable; ++k)
+                        {
+                          const double jx = c[0] + (k == 0 ? jr : k == 1 ? -jr : 0.) * scale, jy = c[1] + (k == 2 ? jr : k == 3 ? -jr : 0.) * scale;
+                          const std::vector<double> o = w.properties(std::array<double,3> {{jx, jy, c[2]}}, c[3], props);
+                          for (size_t i = 0; i < out.size() && stable; ++i)
+                            stable = std::fabs(o[i] - out[i]) <= tabs + std::max(trel, 0.) * std::max(std::fabs(o[i]), std::fabs(out[i]));
+                        }
+                      if (!stable) { ++stats.by_check["twin-dropped-unstable"]; same = true; }
+                    }
                   if (!same)
                     mism("twin", "row [" + fmt(c[0]) + "," + fmt(c[1]) + "," + fmt(c[2]) + "," + fmt(c[3]) + "]: the twin world answers differently",
                          static_cast<long>(where), where < out.size() ? fmt(out[where]) : "", where < out2.size() ? fmt(out2[where]) : "");
